@@ -1,3 +1,6 @@
+import SlipVerif.Model.Format
+import SlipVerif.Model.FormatNum
 import SlipVerif.Model.Num
+import SlipVerif.Driver.Format
 import SlipVerif.Driver.Num
 import SlipVerif.Driver.Util
